@@ -573,26 +573,58 @@ class CFG:
         tests=True also follows names bound once to a comparison / boolean combination of pure chains and constants
         (`changed = a.x != self.x`), provided nothing the comparison reads is assigned in this function."""
         local_names = {x.id for x in ast.walk(expr) if isinstance(x, ast.Name) and isinstance(x.ctx, ast.Load)}
-        mapping = {}
+        # names that stand at a boolean position of expr (the test itself, or an operand of not / and / or): only those may
+        # be replaced by a comparison they are bound to
+        bool_pos = set()
+        todo = [expr]
+        while todo:
+            e = todo.pop()
+            if isinstance(e, ast.Name):
+                bool_pos.add(id(e))
+            elif isinstance(e, ast.UnaryOp) and isinstance(e.op, ast.Not):
+                todo.append(e.operand)
+            elif isinstance(e, ast.BoolOp):
+                todo.extend(e.values)
+        mapping, test_mapping = {}, {}
         for name in local_names:
             d = self.unique_def(n, name)
             if d is None:
                 continue
             v = self.def_value(d, name)
-            if not (_pure_chain(v) or (tests and _pure_test(v) and not self._assigned_in_function(v))):
-                continue
-            if depth > 0:
-                v = self.origin_expr(d, v, depth - 1, tests) or v
-            mapping[name] = v
-        if not mapping:
+            if _pure_chain(v):
+                if depth > 0:
+                    v = self.origin_expr(d, v, depth - 1, tests) or v
+                mapping[name] = v
+            elif tests and _pure_test(v) and not isinstance(v, ast.BoolOp) and not self._assigned_in_function(v):
+                if depth > 0:
+                    v = self.origin_expr(d, v, depth - 1, tests) or v
+                test_mapping[name] = v
+        if not mapping and not test_mapping:
             return None
 
         class R(ast.NodeTransformer):
             def visit_Name(self, node):  # noqa: N802
                 if isinstance(node.ctx, ast.Load) and node.id in mapping:
                     return ast.copy_location(clone(mapping[node.id]), node)
+                if isinstance(node.ctx, ast.Load) and node.id in test_mapping and getattr(node, '_boolpos', False):
+                    return ast.copy_location(clone(test_mapping[node.id]), node)
                 return node
-        return R().visit(clone(expr))
+        c = clone(expr)
+        # mark boolean positions in the clone (same traversal)
+        todo = [c]
+        hit = False
+        while todo:
+            e = todo.pop()
+            if isinstance(e, ast.Name):
+                e._boolpos = True  # noqa: SLF001
+                hit = hit or e.id in test_mapping
+            elif isinstance(e, ast.UnaryOp) and isinstance(e.op, ast.Not):
+                todo.append(e.operand)
+            elif isinstance(e, ast.BoolOp):
+                todo.extend(e.values)
+        if not mapping and not hit:
+            return None
+        return R().visit(c)
 
     def _assigned_in_function(self, e) -> bool:
         """Is any name / attribute chain read by e a store target somewhere in this function?"""
